@@ -257,7 +257,23 @@ PairChains(f, g) ==
 VerChains == << << <<1, 1>>, Single("b", 0, 2)>>, << <<2, 1>>, Single("b", 0, 2)>>, << <<0, 5, 5>>, Single("b", 5, 3)>> >>
 Chains == SingleChains("b") \o SingleChains("n") \o SingleChains("t") \o SingleChains("w")
           \o PairChains("b", "n") \o PairChains("n", "w") \o (IF Quick THEN <<>> ELSE PairChains("t", "w")) \o VerChains
-NC == Len(Chains)
+\* chains given by their declarations: the unique flag (must not change; a new optional field may be unique)
+FA(u) == <<"a", T("text"), u>>
+DA == <<"a", Tx("x")>>
+\* <<versions, declarations, documents <<version, <<name, value>>..>> >>
+ExplicitChains ==
+  << << <<1, 2>>, << << FA(FALSE), <<"b", Opt(T("u64")), FALSE>> >>, << FA(FALSE), <<"b", Opt(T("u64")), TRUE>> >> >>, << <<1, <<DA>>>> >> >>,
+     << <<1, 2>>, << << FA(FALSE), <<"b", Opt(T("u64")), TRUE>> >>, << FA(FALSE), <<"b", Opt(T("u64")), FALSE>> >> >>, << <<1, <<DA>>>> >> >>,
+     << <<1, 2, 3>>, << << FA(FALSE) >>, << FA(FALSE), <<"u", Opt(T("text")), TRUE>> >>,
+                        << FA(FALSE), <<"b", Opt(NP), FALSE>>, <<"u", Opt(T("text")), TRUE>> >> >>,
+        << <<1, <<DA>>>>, <<2, <<DA, <<"u", Tx("k")>>>>>>, <<3, <<DA, <<"b", MpP("x")>>, <<"u", Null>>>>>> >> >>,
+     << <<1, 2>>, << << FA(TRUE) >>, << FA(FALSE) >> >>, << <<1, <<DA>>>> >> >>,
+     \* an untyped map (accepts anything) becomes a struct with an optional key the stored value already uses otherwise
+     << <<1, 7>>, << << FA(FALSE), <<"n", Keyed(<<>>), FALSE>> >>, << FA(FALSE), <<"n", Keyed(<< <<KT("p"), Opt(T("text"))>> >>), FALSE>> >> >>,
+        << <<1, <<DA, <<"n", Mp(<< <<KT("p"), U("1")>> >>)>>>>>>, <<1, <<DA, <<"n", Mp(<< <<KT("p"), Tx("x")>>, <<KT("z"), U("1")>> >>)>>>>>>,
+           <<1, <<DA, <<"n", Mp(<<>>)>>>>>> >> >> >>
+NCh == Len(Chains)
+NC == NCh + Len(ExplicitChains)
 
 \* the declaration of version k of a chain: "a" then the present fields in name order
 DeclOf(hists, k) ==
@@ -287,11 +303,15 @@ Promise(r, idoc) ==
   IN <<"ok", Mat([i \in 1..Len(kept) |-> <<kept[i][1], Prune(r.fields[FindIdx(r.fields, kept[i][1])][2], kept[i][2])>>])>>
 
 UpgCase(c) ==
-  LET vers == Chains[c][1] hists == Chains[c][2] len == Len(vers)
-      D == Mat([k \in 1..len |-> DeclOf(hists, k)])
+  LET expl == c > NCh
+      vers == IF expl THEN ExplicitChains[c - NCh][1] ELSE Chains[c][1]
+      hists == IF expl THEN Single("b", 0, Len(vers)) ELSE Chains[c][2]
+      len == Len(vers)
+      D == IF expl THEN ExplicitChains[c - NCh][2] ELSE Mat([k \in 1..len |-> DeclOf(hists, k)])
       S == Schemas(D, vers, <<>>)
       np == Len(S)
-      docs == FlattenSeq(Mat([k \in 1..np |-> << <<k, DocOf(hists, k, 2)>>, <<k, DocOf(hists, k, 3)>> >>]))
+      docs == IF expl THEN SelectSeq(ExplicitChains[c - NCh][3], LAMBDA d : d[1] <= np)
+              ELSE FlattenSeq(Mat([k \in 1..np |-> << <<k, DocOf(hists, k, 2)>>, <<k, DocOf(hists, k, 3)>> >>]))
       reads == FlattenSeq(Mat([d \in 1..Len(docs) |->
                  LET k == docs[d][1] idoc == IdxDoc(S[k], docs[d][2])
                  IN Mat([x \in 1..(np - k + 1) |-> LET j == k + x - 1 got == ReadDoc(S[j], StoredDoc(idoc))
